@@ -1,120 +1,117 @@
 ----------------------------- MODULE M3ObsTrace -----------------------------
 (***************************************************************************)
 (* Observable-level validation of executions of the real M3 reporter       *)
-(* (harness command m3sched: API calls made by scenario threads under the  *)
-(* controlled scheduler, datagrams decoded at loopback sinks).  Only the    *)
-(* OBSERVABLE variables of M3Reporter.tla are maintained - called,          *)
-(* returned, retAtClose, closeCalled, closeReturned, closeRes, panicked,    *)
-(* lateEnq and sent (what destination 1 received) - built from the log     *)
-(* alone, and the invariants of M3Reporter.tla that speak about them are    *)
-(* evaluated after every event.  Events:                                    *)
-(*  scn  {producers, closers, max_packet, dests}                            *)
-(*  call {t, op: report|flush|close, name, kind, v, tags, bucket}           *)
-(*  ret  {t, op, name, v, err, alive}                                       *)
-(*  emit {dest, len, ok, common_ok, mets:[{name, kind, v, tags, ts}]}       *)
-(*  panic {t, msg} | deadlock {where} | end {pending, qlen, done} | endx    *)
+(* (harness commands m3sched: API calls made by scenario threads under the *)
+(* controlled scheduler, and c13: free-running goroutines; datagrams       *)
+(* decoded at loopback sinks).  Only the OBSERVABLE variables of           *)
+(* M3Reporter.tla are maintained - called, returned, retAtClose,           *)
+(* closeCalled, closeReturned, closeRes, panicked, lateEnq - built from    *)
+(* the log alone, and the invariants of M3Reporter.tla that speak about    *)
+(* them are evaluated as the events come in (incrementally: `sent` itself  *)
+(* is not accumulated, occ[i] counts how often report i arrived at         *)
+(* destination 1).  Reports are numbered in the order of their call events *)
+(* (cid); an emitted metric carries the cid the harness found for its      *)
+(* (name, value) - 0 if nobody reported it - and is compared with that     *)
+(* call's record.  Events:                                                 *)
+(*  scn  {producers, closers, max_packet, dests}                           *)
+(*  call {t, op: report|flush|close, cid, tn, name, kind, v, tags}         *)
+(*  ret  {t, op, cid, err, alive}                                          *)
+(*  emit {dest, len, ok, common_ok, mets:[{cid, name, kind, v, tags, ts}]} *)
+(*  panic {t, msg} | deadlock {where} | end {pending, qlen, done} | endx   *)
 (***************************************************************************)
 EXTENDS M3Reporter, Json
-VARIABLES l, ids, nrep, cfgv, sentD, closerNames, bad, occ, lastIdx
-tvars == <<l, ids, nrep, cfgv, sentD, closerNames, bad, occ, lastIdx>>
+VARIABLES l, calls, cfgv, sentD, bad, occ, lastTn
+tvars == <<l, calls, cfgv, sentD, bad, occ, lastTn>>
 TraceLog == ndJsonDeserialize("trace.ndjson")
 Fail(c) == PrintT(<<"FAIL", l, c>>)
 
 Pairs(qq) == [i \in 1..Len(qq) |-> <<qq[i][1], qq[i][2]>>]
-Key(r) == <<r.name, r.v>>
 Dummy == [t \in Threads |-> "fin"]
 
 TInit ==
-  /\ l = 1 /\ ids = <<>> /\ nrep = <<>> /\ cfgv = [max_packet |-> 0, dests |-> 1] /\ sentD = <<>> /\ closerNames = {} /\ bad = FALSE /\ occ = <<>> /\ lastIdx = <<>>
+  /\ l = 1 /\ calls = <<>> /\ cfgv = [max_packet |-> 0, dests |-> 1] /\ sentD = <<>> /\ bad = FALSE /\ occ = <<>> /\ lastTn = <<>>
   /\ pc = Dummy /\ idx = [t \in Threads |-> 1] /\ done = FALSE /\ pending = 0 /\ doneClosed = FALSE /\ metClosed = FALSE
   /\ q = <<>> /\ mets = <<>> /\ bytes = 0 /\ sent = <<>> /\ now = 1 /\ clk = 1
   /\ panicked = FALSE /\ closeRes = <<>> /\ called = {} /\ returned = {} /\ retAtClose = {} /\ closeCalled = FALSE
   /\ closeReturned = FALSE /\ lateEnq = {} /\ hold = [t \in Threads |-> <<>>] /\ inner = [t \in Threads |-> 0]
 
-Unobs == UNCHANGED <<pc, idx, done, pending, doneClosed, metClosed, q, mets, bytes, now, clk, hold, inner>>
+Unobs == UNCHANGED <<pc, idx, done, pending, doneClosed, metClosed, q, mets, bytes, sent, now, clk, hold, inner>>
 
-(* The observable invariants of M3Reporter.tla, evaluated incrementally: `sent` itself is not accumulated (a
-   long history would make every evaluation quadratic); occ[id] counts the occurrences of a report in what
-   destination 1 received, lastIdx[t] is the highest report index of thread t seen so far. *)
-OccOf(id) == IF id \in DOMAIN occ THEN occ[id] ELSE 0
 JudgeState ==
   /\ IF ~NoSendOnClosedQueue' THEN Fail("NoSendOnClosedQueue") ELSE TRUE
   /\ IF Cardinality({c \in DOMAIN closeRes' : closeRes'[c] = "ok"}) > 1 THEN Fail("SecondCloseErrors") ELSE TRUE
   /\ IF ~AfterCloseNoop' THEN Fail("AfterCloseNoop") ELSE TRUE
+(* ReturnedBeforeCloseDelivered of M3Reporter.tla, at the moment Close returns *)
 JudgeClose ==
-  IF \E id \in retAtClose : OccOf(id) # 1 THEN Fail("ReturnedBeforeCloseDelivered") ELSE TRUE
+  IF \E id \in retAtClose : occ[id] # 1 THEN Fail("ReturnedBeforeCloseDelivered") ELSE TRUE
 
 TNext ==
   /\ l <= Len(TraceLog)
   /\ LET r == TraceLog[l] IN
      CASE r.e = "scn" ->
-            /\ ids' = <<>> /\ nrep' = <<>> /\ sentD' = [d \in 1..r.dests |-> <<>>] /\ closerNames' = {} /\ bad' = FALSE /\ occ' = <<>> /\ lastIdx' = <<>>
+            /\ calls' = <<>> /\ sentD' = [d \in 1..r.dests |-> <<>>] /\ bad' = FALSE /\ occ' = <<>> /\ lastTn' = <<>>
             /\ cfgv' = [max_packet |-> IF r.max_packet = 0 THEN 1440 ELSE r.max_packet, dests |-> r.dests]
-            /\ sent' = <<>> /\ panicked' = FALSE /\ closeRes' = <<>> /\ called' = {} /\ returned' = {} /\ retAtClose' = {}
+            /\ panicked' = FALSE /\ closeRes' = <<>> /\ called' = {} /\ returned' = {} /\ retAtClose' = {}
             /\ closeCalled' = FALSE /\ closeReturned' = FALSE /\ lateEnq' = {} /\ Unobs
        [] r.e = "call" /\ r.op = "report" ->
-            LET n == IF r.t \in DOMAIN nrep THEN nrep[r.t] + 1 ELSE 1
-                id == <<r.t, "rep", n>>
-            IN /\ nrep' = [x \in DOMAIN nrep \cup {r.t} |-> IF x = r.t THEN n ELSE nrep[x]]
-               /\ ids' = [x \in DOMAIN ids \cup {Key(r)} |-> IF x = Key(r) THEN [id |-> id, kind |-> r.kind, tags |-> Pairs(r.tags), late |-> closeReturned] ELSE ids[x]]
-               /\ called' = called \cup {id}
-               /\ IF Key(r) \in DOMAIN ids THEN Fail("Harness:duplicate-report-key") ELSE TRUE
-               /\ UNCHANGED <<cfgv, sentD, closerNames, bad, occ, lastIdx, sent, panicked, closeRes, returned, retAtClose, closeCalled, closeReturned, lateEnq>> /\ Unobs
+            /\ calls' = Append(calls, [t |-> r.t, tn |-> r.tn, kind |-> r.kind, tags |-> Pairs(r.tags), late |-> closeReturned])
+            /\ occ' = Append(occ, 0)
+            /\ called' = called \cup {r.cid}
+            /\ IF r.cid # Len(calls) + 1 THEN Fail("Harness:call-numbering") ELSE TRUE
+            /\ UNCHANGED <<cfgv, sentD, bad, lastTn, panicked, closeRes, returned, retAtClose, closeCalled, closeReturned, lateEnq>> /\ Unobs
        [] r.e = "ret" /\ r.op = "report" ->
-            /\ returned' = returned \cup {ids[Key(r)].id}
-            /\ UNCHANGED <<ids, nrep, cfgv, sentD, closerNames, bad, occ, lastIdx, sent, panicked, closeRes, called, retAtClose, closeCalled, closeReturned, lateEnq>> /\ Unobs
+            /\ returned' = returned \cup {r.cid}
+            /\ UNCHANGED <<calls, cfgv, sentD, bad, occ, lastTn, panicked, closeRes, called, retAtClose, closeCalled, closeReturned, lateEnq>> /\ Unobs
        [] r.e = "call" /\ r.op = "close" ->
             /\ IF ~closeCalled THEN retAtClose' = returned /\ closeCalled' = TRUE ELSE UNCHANGED <<retAtClose, closeCalled>>
-            /\ UNCHANGED <<ids, nrep, cfgv, sentD, closerNames, bad, occ, lastIdx, sent, panicked, closeRes, called, returned, closeReturned, lateEnq>> /\ Unobs
+            /\ UNCHANGED <<calls, cfgv, sentD, bad, occ, lastTn, panicked, closeRes, called, returned, closeReturned, lateEnq>> /\ Unobs
        [] r.e = "ret" /\ r.op = "close" ->
             /\ closeRes' = [x \in DOMAIN closeRes \cup {r.t} |-> IF x = r.t THEN (IF r.err THEN "err" ELSE "ok") ELSE closeRes[x]]
             /\ closeReturned' = (closeReturned \/ ~r.err)
             /\ IF r.alive THEN Fail("NoLeak") ELSE TRUE
             /\ IF ~r.err /\ \E d \in 2..cfgv.dests : sentD[d] # sentD[1] THEN Fail("EveryDestinationGetsEveryBatch") ELSE TRUE
             /\ IF ~r.err THEN JudgeClose ELSE TRUE
-            /\ UNCHANGED <<ids, nrep, cfgv, sentD, closerNames, bad, occ, lastIdx, sent, panicked, called, returned, retAtClose, closeCalled, lateEnq>> /\ Unobs
+            /\ UNCHANGED <<calls, cfgv, sentD, bad, occ, lastTn, panicked, called, returned, retAtClose, closeCalled, lateEnq>> /\ Unobs
             /\ JudgeState
        [] r.e = "emit" ->
-            LET K(i) == <<r.mets[i].name, r.mets[i].v>>
-                known == {i \in 1..Len(r.mets) : K(i) \in DOMAIN ids}
-                bids == [i \in 1..Len(r.mets) |-> IF i \in known THEN ids[K(i)].id ELSE <<"?", "rep", l * 1000 + i>>]
-                newIds == {bids[i] : i \in known}
-                cnt(id) == Cardinality({i \in known : bids[i] = id})
-            IN /\ sentD' = [sentD EXCEPT ![r.dest] = IF Len(r.mets) = 0 THEN @ ELSE Append(@, bids)]
-               /\ sent' = sent
-               /\ occ' = IF r.dest = 1 THEN [x \in DOMAIN occ \cup newIds |-> OccOf(x) + (IF x \in newIds THEN cnt(x) ELSE 0)] ELSE occ
-               /\ lastIdx' = IF r.dest = 1
-                             THEN [t \in DOMAIN lastIdx \cup {bids[i][1] : i \in known} |->
-                                     LET here == {bids[i][3] : i \in {j \in known : bids[j][1] = t}}
-                                         old == IF t \in DOMAIN lastIdx THEN lastIdx[t] ELSE 0
-                                     IN IF here = {} THEN old ELSE LET m == CHOOSE x \in here : \A y \in here : y <= x IN IF m > old THEN m ELSE old]
-                             ELSE lastIdx
-               /\ lateEnq' = lateEnq \cup {ids[K(i)].id : i \in {j \in known : ids[K(j)].late}}
+            LET n == Len(r.mets)
+                known == {i \in 1..n : r.mets[i].cid >= 1 /\ r.mets[i].cid <= Len(calls)}
+                cids == [i \in 1..n |-> r.mets[i].cid]
+                cidSet == {cids[i] : i \in known}
+                C(i) == calls[cids[i]]
+                ths == {C(i).t : i \in known}
+                maxTn(t) == LET S == {C(i).tn : i \in {j \in known : C(j).t = t}} IN CHOOSE x \in S : \A y \in S : y <= x
+            IN /\ sentD' = [sentD EXCEPT ![r.dest] = IF n = 0 THEN @ ELSE Append(@, cids)]
+               /\ occ' = IF r.dest = 1 THEN [i \in 1..Len(occ) |-> IF i \in cidSet THEN occ[i] + 1 ELSE occ[i]] ELSE occ
+               /\ lastTn' = IF r.dest = 1
+                            THEN [t \in DOMAIN lastTn \cup ths |-> IF t \in ths THEN (IF t \in DOMAIN lastTn /\ lastTn[t] > maxTn(t) THEN lastTn[t] ELSE maxTn(t)) ELSE lastTn[t]]
+                            ELSE lastTn
+               /\ lateEnq' = lateEnq \cup {cids[i] : i \in {j \in known : C(j).late}}
                /\ IF ~r.ok THEN Fail("OneMessagePerDatagram")
                   ELSE IF r.len > cfgv.max_packet THEN Fail("DatagramWithinLimit")
                   ELSE IF ~r.common_ok THEN Fail("CommonTagsEverywhere")
-                  ELSE IF known # 1..Len(r.mets) THEN Fail("Intact:metric-nobody-reported")
-                  ELSE IF \E i \in known : ids[K(i)].kind # r.mets[i].kind THEN Fail("Intact:kind")
-                  ELSE IF \E i \in known : ids[K(i)].tags # Pairs(r.mets[i].tags) THEN Fail("Intact:tags")
+                  ELSE IF known # 1..n THEN Fail("Intact:metric-nobody-reported")
+                  ELSE IF \E i \in known : C(i).kind # r.mets[i].kind THEN Fail("Intact:kind")
+                  ELSE IF \E i \in known : C(i).tags # Pairs(r.mets[i].tags) THEN Fail("Intact:tags")
                   ELSE IF closeReturned THEN Fail("CloseDrains:emit-after-Close-returned")
-                  ELSE IF r.dest = 1 /\ \E i \in known : OccOf(bids[i]) + cnt(bids[i]) > 1 THEN Fail("AtMostOnce")
+                  ELSE IF r.dest = 1 /\ (Cardinality(cidSet) # n \/ \E i \in known : occ[cids[i]] >= 1) THEN Fail("AtMostOnce")
                   ELSE IF \E i \in known : r.mets[i].ts # "ok" THEN Fail("TimestampBracket:" \o (CHOOSE x \in {r.mets[i].ts : i \in known} : x # "ok"))
-                  ELSE IF r.dest = 1 /\ \E i, j \in known : i < j /\ bids[i][1] = bids[j][1] /\ bids[i][3] > bids[j][3] THEN Fail("OrderPreserved")
-                  ELSE IF r.dest = 1 /\ \E i \in known : bids[i][1] \in DOMAIN lastIdx /\ bids[i][3] < lastIdx[bids[i][1]] THEN Fail("OrderPreserved")
+                  ELSE IF r.dest = 1 /\ \E i, j \in known : i < j /\ C(i).t = C(j).t /\ C(i).tn > C(j).tn THEN Fail("OrderPreserved")
+                  ELSE IF r.dest = 1 /\ \E i \in known : C(i).t \in DOMAIN lastTn /\ C(i).tn < lastTn[C(i).t] THEN Fail("OrderPreserved")
                   ELSE TRUE
-               /\ UNCHANGED <<ids, nrep, cfgv, closerNames, bad, panicked, closeRes, called, returned, retAtClose, closeCalled, closeReturned>> /\ Unobs
+               /\ UNCHANGED <<calls, cfgv, bad, panicked, closeRes, called, returned, retAtClose, closeCalled, closeReturned>> /\ Unobs
                /\ JudgeState
        [] r.e = "panic" ->
             /\ panicked' = TRUE /\ bad' = TRUE
-            /\ UNCHANGED <<ids, nrep, cfgv, sentD, closerNames, occ, lastIdx, sent, closeRes, called, returned, retAtClose, closeCalled, closeReturned, lateEnq>> /\ Unobs
+            /\ UNCHANGED <<calls, cfgv, sentD, occ, lastTn, closeRes, called, returned, retAtClose, closeCalled, closeReturned, lateEnq>> /\ Unobs
             /\ JudgeState
        [] r.e = "deadlock" ->
             /\ bad' = TRUE /\ Fail("NoDeadlock")
-            /\ UNCHANGED <<ids, nrep, cfgv, sentD, closerNames, occ, lastIdx, sent, panicked, closeRes, called, returned, retAtClose, closeCalled, closeReturned, lateEnq>> /\ Unobs
+            /\ UNCHANGED <<calls, cfgv, sentD, occ, lastTn, panicked, closeRes, called, returned, retAtClose, closeCalled, closeReturned, lateEnq>> /\ Unobs
        [] r.e = "end" ->
             /\ IF ~bad /\ r.pending # 0 THEN Fail("PendingBalanced") ELSE TRUE
-            /\ UNCHANGED <<ids, nrep, cfgv, sentD, closerNames, bad, occ, lastIdx, sent, panicked, closeRes, called, returned, retAtClose, closeCalled, closeReturned, lateEnq>> /\ Unobs
-       [] OTHER -> UNCHANGED <<ids, nrep, cfgv, sentD, closerNames, bad, occ, lastIdx, sent, panicked, closeRes, called, returned, retAtClose, closeCalled, closeReturned, lateEnq>> /\ Unobs
+            /\ UNCHANGED <<calls, cfgv, sentD, bad, occ, lastTn, panicked, closeRes, called, returned, retAtClose, closeCalled, closeReturned, lateEnq>> /\ Unobs
+       [] OTHER -> UNCHANGED <<calls, cfgv, sentD, bad, occ, lastTn, panicked, closeRes, called, returned, retAtClose, closeCalled, closeReturned, lateEnq>> /\ Unobs
   /\ l' = l + 1
 TraceSpec == TInit /\ [][TNext]_<<vars, tvars>>
 =============================================================================
